@@ -49,8 +49,11 @@ fn extract<T: oq3_source_file::SourceTrait>(res: &oq3_semantics::syntax_to_seman
     SemaOut { panic: None, syntax_errors: nsyn, any_syntax, stmts, symbols, errors, scope_depth: table.verif_scope_depth(), gates }
 }
 
-fn guarded(f: impl FnOnce() -> SemaOut) -> SemaOut {
-    match std::panic::catch_unwind(std::panic::AssertUnwindSafe(f)) {
+fn guarded(desc: &str, f: impl FnOnce() -> SemaOut) -> SemaOut {
+    crate::util::watch_case(desc);
+    let r = std::panic::catch_unwind(std::panic::AssertUnwindSafe(f));
+    crate::util::watch_idle();
+    match r {
         Ok(o) => o,
         Err(e) => {
             let msg = if let Some(s) = e.downcast_ref::<&str>() {
@@ -75,7 +78,7 @@ fn guarded(f: impl FnOnce() -> SemaOut) -> SemaOut {
 }
 
 pub fn run_sema_with(text: &str, search: Option<&[PathBuf]>) -> SemaOut {
-    guarded(|| {
+    guarded(text, || {
         let res = match search {
             Some(s) => parse_source_string_with_path_search(text, None, Some(s)),
             None => parse_source_string(text, None),
@@ -86,7 +89,7 @@ pub fn run_sema_with(text: &str, search: Option<&[PathBuf]>) -> SemaOut {
 
 /// the string entry point, followed by printing all diagnostics (standard output must be redirected by the caller)
 pub fn run_sema_print(text: &str, search: Option<&[PathBuf]>) -> SemaOut {
-    guarded(|| {
+    guarded(text, || {
         let res = match search {
             Some(s) => parse_source_string_with_path_search(text, Some("fake.qasm"), Some(s)),
             None => parse_source_string(text, Some("fake.qasm")),
@@ -99,7 +102,7 @@ pub fn run_sema_print(text: &str, search: Option<&[PathBuf]>) -> SemaOut {
 /// the file entry points: `parse_source_file_with_search` (search list given, or `with_search_none`) or
 /// `parse_source_file`; `print` also prints the diagnostics
 pub fn run_sema_file(path: &std::path::Path, search: Option<&[PathBuf]>, with_search_none: bool, print: bool) -> SemaOut {
-    guarded(|| {
+    guarded(&std::fs::read_to_string(path).unwrap_or_else(|_| path.display().to_string()), || {
         let res = match search {
             Some(s) => parse_source_file_with_search(path, Some(s)),
             None if with_search_none => parse_source_file_with_search(path, None::<&[PathBuf]>),
